@@ -458,6 +458,205 @@ fn scen_race(d1: i64, d2: i64) -> Out {
 	o
 }
 
+/// A forwarding node configured with `cltv_expiry_delta = cfg_delta` receives an HTLC whose onion
+/// leaves it `onion_delta` blocks between inbound and outbound expiry. Whatever it is configured
+/// with, it must never relay with less than MIN_CLTV_EXPIRY_DELTA blocks (the race budget), and it
+/// must relay when the delta is at least max(cfg_delta, MIN_CLTV_EXPIRY_DELTA).
+fn scen_subdelta(cfg_delta: i64, onion_delta: i64) -> Out {
+	let k = consts();
+	let min_delta = k["MIN_CLTV_EXPIRY_DELTA"];
+	let mut o = Out::new("subdelta", format!("subdelta {} {}", cfg_delta, onion_delta));
+	let chanmon_cfgs = create_chanmon_cfgs(3);
+	let node_cfgs = create_node_cfgs(3, &chanmon_cfgs);
+	let mut cfg_b = test_legacy_channel_config();
+	cfg_b.channel_config.cltv_expiry_delta = cfg_delta as u16;
+	let legacy = test_legacy_channel_config();
+	let node_chanmgrs = create_node_chanmgrs(3, &node_cfgs, &[Some(legacy.clone()), Some(cfg_b), Some(legacy)]);
+	let nodes = create_network(3, &node_cfgs, &node_chanmgrs);
+	for n in nodes.iter() {
+		*n.connect_style.borrow_mut() = ConnectStyle::BestBlockFirst;
+	}
+	create_announced_chan_between_nodes(&nodes, 0, 1);
+	create_announced_chan_between_nodes(&nodes, 1, 2);
+	let node_a_id = nodes[0].node.get_our_node_id();
+	let node_c_id = nodes[2].node.get_our_node_id();
+	let amt = 100_000u64;
+	let (mut route, hash, _preimage, secret) = get_route_and_payment_hash!(nodes[0], nodes[2], amt);
+	o.obs("advertised_delta", route.paths[0].hops[0].cltv_expiry_delta);
+	route.paths[0].hops[0].cltv_expiry_delta = onion_delta as u32;
+	let onion = RecipientOnionFields::secret_only(secret, amt);
+	nodes[0].node.send_payment_with_route(route, hash, onion, PaymentId(hash.0)).unwrap();
+	check_added_monitors(&nodes[0], 1);
+	let ev = SendEvent::from_node(&nodes[0]);
+	let in_cltv = ev.msgs[0].cltv_expiry;
+	nodes[1].node.handle_update_add_htlc(node_a_id, &ev.msgs[0]);
+	do_commitment_signed_dance(&nodes[1], &nodes[0], &ev.commitment_msg, false, true);
+	nodes[1].node.process_pending_htlc_forwards();
+	nodes[1].node.process_pending_htlc_forwards();
+	let msgs = nodes[1].node.get_and_clear_pending_msg_events();
+	let mut out_cltv: Option<u32> = None;
+	for m in msgs.iter() {
+		if let MessageSendEvent::UpdateHTLCs { node_id, updates, .. } = m {
+			if *node_id == node_c_id {
+				for a in updates.update_add_htlcs.iter() {
+					out_cltv = Some(a.cltv_expiry);
+				}
+			}
+		}
+	}
+	o.obs("in_cltv", in_cltv);
+	o.obs("relayed", out_cltv.is_some());
+	o.obs("out_cltv", out_cltv.map(|c| c as i64).unwrap_or(-1));
+	match out_cltv {
+		Some(oc) => {
+			if (in_cltv as i64) - (oc as i64) < min_delta as i64 {
+				o.fail("forwarded an HTLC leaving fewer than MIN_CLTV_EXPIRY_DELTA blocks between outbound and inbound expiry");
+			}
+		},
+		None => {
+			if onion_delta >= std::cmp::max(cfg_delta, min_delta as i64) {
+				o.fail("refused to forward an HTLC that satisfies the advertised CLTV delta");
+			}
+		},
+	}
+	for n in nodes.iter() {
+		let _ = n.node.get_and_clear_pending_events();
+		let _ = n.node.get_and_clear_pending_msg_events();
+		n.chain_monitor.added_monitors.lock().unwrap().clear();
+	}
+	std::mem::forget(nodes);
+	o
+}
+
+/// B forwards an HTLC to C, who goes silent before acknowledging it; B's commitment WITHOUT the HTLC
+/// confirms; after `confs` confirmations B restarts from its serialized state. The upstream HTLC may be
+/// failed back only once the commitment is buried by ANTI_REORG_DELAY (a reorg could still confirm C's
+/// commitment, which contains the HTLC) -- also across the restart. `dust` = the HTLC is below dust.
+fn scen_reload_burial(confs: i64, dust: i64) -> Out {
+	use lightning::util::ser::Writeable;
+	let k = consts();
+	let ard = k["ANTI_REORG_DELAY"];
+	let mut o = Out::new("reload_burial", format!("reload_burial {} {}", confs, dust));
+	let chanmon_cfgs = create_chanmon_cfgs(3);
+	let node_cfgs = create_node_cfgs(3, &chanmon_cfgs);
+	let persister;
+	let new_chain_monitor;
+	let legacy = test_legacy_channel_config();
+	let node_chanmgrs = create_node_chanmgrs(3, &node_cfgs, &[Some(legacy.clone()), Some(legacy.clone()), Some(legacy.clone())]);
+	let nodes_1_deserialized;
+	let mut nodes = create_network(3, &node_cfgs, &node_chanmgrs);
+	for n in nodes.iter() {
+		*n.connect_style.borrow_mut() = ConnectStyle::BestBlockFirst;
+	}
+	let node_a_id = nodes[0].node.get_our_node_id();
+	let node_b_id = nodes[1].node.get_our_node_id();
+	let node_c_id = nodes[2].node.get_our_node_id();
+	let chan_id_1 = create_announced_chan_between_nodes(&nodes, 0, 1).2;
+	let chan_id_2 = create_announced_chan_between_nodes(&nodes, 1, 2).2;
+	let amt = if dust == 1 { 10_000u64 } else { 1_000_000u64 };
+	let (route, hash, _preimage, secret) = get_route_and_payment_hash!(nodes[0], nodes[2], amt);
+	let onion = RecipientOnionFields::secret_only(secret, amt);
+	nodes[0].node.send_payment_with_route(route, hash, onion, PaymentId(hash.0)).unwrap();
+	check_added_monitors(&nodes[0], 1);
+	let bs_txn = lightning::get_local_commitment_txn!(nodes[1], chan_id_2);
+	let updates = get_htlc_update_msgs(&nodes[0], &node_b_id);
+	nodes[1].node.handle_update_add_htlc(node_a_id, &updates.update_add_htlcs[0]);
+	do_commitment_signed_dance(&nodes[1], &nodes[0], &updates.commitment_signed, false, false);
+	nodes[1].node.process_pending_htlc_forwards();
+	let _ = nodes[1].node.get_and_clear_pending_msg_events(); // the add towards C: never delivered
+	nodes[1].chain_monitor.added_monitors.lock().unwrap().clear();
+	// C never responds; B's pre-HTLC commitment confirms.
+	mine_transaction(&nodes[1], &bs_txn[0]);
+	let conf_height = nodes[1].best_block_info().1;
+	let _ = take_broadcasts(&nodes[1]);
+	let mut failed_at: Option<u32> = None;
+	let drain = |nodes: &Vec<Node>, failed_at: &mut Option<u32>| {
+		nodes[1].node.process_pending_htlc_forwards();
+		let evs = nodes[1].node.get_and_clear_pending_events();
+		let mut msgs = nodes[1].node.get_and_clear_pending_msg_events();
+		nodes[1].node.process_pending_htlc_forwards();
+		msgs.extend(nodes[1].node.get_and_clear_pending_msg_events());
+		let ev_fail = evs.iter().any(|e| matches!(e, Event::HTLCHandlingFailed { .. }));
+		let msg_fail = msgs.iter().any(|m| matches!(m, MessageSendEvent::UpdateHTLCs { node_id, updates, .. } if *node_id == node_a_id && !updates.update_fail_htlcs.is_empty()));
+		if (ev_fail || msg_fail) && failed_at.is_none() {
+			*failed_at = Some(nodes[1].best_block_info().1);
+		}
+		nodes[1].chain_monitor.added_monitors.lock().unwrap().clear();
+	};
+	drain(&nodes, &mut failed_at);
+	for _ in 1..confs {
+		connect_blocks(&nodes[1], 1);
+		drain(&nodes, &mut failed_at);
+	}
+	let before_reload = failed_at;
+	if failed_at.is_some() {
+		// already failed back (burial reached before the scripted restart point): judge below
+		o.obs("commitment_confirmed", conf_height);
+		o.obs("failback_at", failed_at.unwrap());
+		o.obs("model_failback_at", conf_height + ard - 1);
+		if failed_at.unwrap() + 1 < conf_height + ard {
+			o.fail("upstream HTLC failed back before the confirmed commitment was buried by ANTI_REORG_DELAY");
+		}
+		if failed_at.unwrap() > conf_height + ard {
+			o.fail("upstream HTLC failed back later than burial of the confirmed commitment");
+		}
+		for n in nodes.iter() {
+			let _ = n.node.get_and_clear_pending_events();
+			let _ = n.node.get_and_clear_pending_msg_events();
+			n.chain_monitor.added_monitors.lock().unwrap().clear();
+		}
+		std::mem::forget(nodes);
+		return o;
+	}
+	// restart B
+	let node_ser = nodes[1].node.encode();
+	let mon_a_ser = lightning::get_monitor!(nodes[1], chan_id_1).encode();
+	let mon_b_ser = lightning::get_monitor!(nodes[1], chan_id_2).encode();
+	let mons = &[&mon_a_ser[..], &mon_b_ser[..]];
+	lightning::reload_node!(nodes[1], &node_ser, mons, persister, new_chain_monitor, nodes_1_deserialized);
+	*nodes[1].connect_style.borrow_mut() = ConnectStyle::BestBlockFirst;
+	drain(&nodes, &mut failed_at);
+	o.obs("failed_back_on_reload", failed_at.is_some());
+	if failed_at.is_none() {
+		nodes[0].node.peer_disconnected(node_b_id);
+		nodes[2].node.peer_disconnected(node_b_id);
+		let mut ra = ReconnectArgs::new(&nodes[0], &nodes[1]);
+		ra.send_channel_ready = (false, false);
+		reconnect_nodes(ra);
+		drain(&nodes, &mut failed_at);
+	}
+	let mut guard = 0;
+	while failed_at.is_none() && guard < ard + 4 {
+		connect_blocks(&nodes[1], 1);
+		drain(&nodes, &mut failed_at);
+		guard += 1;
+	}
+	o.obs("commitment_confirmed", conf_height);
+	o.obs("reload_at", conf_height as i64 + confs - 1);
+	o.obs("failed_back_before_reload", before_reload.map(|h| h as i64).unwrap_or(-1));
+	o.obs("failback_at", failed_at.map(|h| h as i64).unwrap_or(-1));
+	o.obs("model_failback_at", conf_height + ard - 1);
+	match failed_at {
+		None => o.fail("upstream HTLC never failed back although the downstream commitment without it is buried"),
+		Some(f) => {
+			if f + 1 < conf_height + ard {
+				o.fail("upstream HTLC failed back before the confirmed commitment was buried by ANTI_REORG_DELAY");
+			}
+			if f > conf_height + ard {
+				o.fail("upstream HTLC failed back later than burial of the confirmed commitment");
+			}
+		},
+	}
+	let _ = node_c_id;
+	for n in nodes.iter() {
+		let _ = n.node.get_and_clear_pending_events();
+		let _ = n.node.get_and_clear_pending_msg_events();
+		n.chain_monitor.added_monitors.lock().unwrap().clear();
+	}
+	std::mem::forget(nodes);
+	o
+}
+
 fn run_one(name: &str, a: i64, b: i64) {
 	let r = panic::catch_unwind(AssertUnwindSafe(|| match name {
 		"recv" => scen_recv(a),
@@ -465,6 +664,8 @@ fn run_one(name: &str, a: i64, b: i64) {
 		"inbound" => scen_inbound(a),
 		"outbound" => scen_outbound(a),
 		"race" => scen_race(a, b),
+		"subdelta" => scen_subdelta(a, b),
+		"reload_burial" => scen_reload_burial(a, b),
 		_ => {
 			let mut o = Out::new(name, String::new());
 			o.fail("unknown scenario");
@@ -511,6 +712,21 @@ fn main() {
 	}
 	run_one("inbound", 0, 0);
 	run_one("outbound", 0, 0);
+	let min_delta = k["MIN_CLTV_EXPIRY_DELTA"] as i64;
+	let ard = k["ANTI_REORG_DELAY"] as i64;
+	for cfg in [12i64, min_delta - 1, min_delta, min_delta + 24] {
+		for od in [12i64, min_delta - 1, min_delta, min_delta + 24] {
+			if od >= cfg || od >= 12 {
+				run_one("subdelta", cfg, od);
+			}
+		}
+	}
+	for confs in 1..=(ard + 1) {
+		run_one("reload_burial", confs, 0);
+	}
+	for confs in [1i64, 2, ard - 1, ard] {
+		run_one("reload_burial", confs, 1);
+	}
 	let mut pairs = vec![(1, 1), (mbc, mbc), (1, mbc), (mbc, 1)];
 	if thorough {
 		for a in 1..=mbc {
